@@ -60,11 +60,11 @@ CHECKS["C13"] = {
         R("./env", {"fn": r"^ZZ_C13_D2_(two_goroutines|sequence)_quick$"}, {"fn": r"^ZZ_C13_D2_(two_goroutines|sequence)$", "wall_timeout": 7200}),
     ],
     "expect_asserts": [r"C13\.D1\.lock-discipline/.*", r"C13\.D2\.linearizable/.*"],
-    "bounds": {"quick": {"D1": "every exported Env method, one call from arbitrary state of <=2 scopes; GetEnvFromPath with 1-3 path elements through modules m, m.m2 including every failing path",
+    "bounds": {"quick": {"D1": "every exported Env method (SetExternalLookup included; guarded fields: values, types, externalLookup), one call from arbitrary state of <=2 scopes; GetEnvFromPath with 1-3 path elements through modules m, m.m2 including every failing path",
                          "D2": "2 goroutines x 1 operation, <= 3 context switches at lock operations; 2 operations (Define/Delete/DefineType) against 1 observer (Copy/DeepCopy/Get/Symbols), <= 2 switches"},
                "thorough": {"D1": "same", "D2": "2 goroutines x 1 operation, <= 8 context switches (all interleavings at lock granularity); 2 operations (Define/Delete/DefineType/Set) against 1 of 8 operations, <= 4 switches"}},
     "stubs": ["sync.RWMutex / WaitGroup / go: engine coroutine model, switch only at lock operations and goroutine start/end"],
-    "assumptions": ["lock discipline on e.values/e.types implies data-race freedom of those fields under the Go memory model (trusted inference)",
+    "assumptions": ["lock discipline on e.values/e.types/e.externalLookup implies data-race freedom of those fields under the Go memory model (trusted inference)",
                     "scheduling granularity = lock operations"],
     "outside": ["memory-access interleavings observable only by the race detector under stress: not encoded; -race is used to replay D1 candidates",
                 "3 goroutines; 2 operations in both goroutines"],
@@ -116,7 +116,7 @@ CHECKS["C10"] = {
     "expect_asserts": [r"C10\.slice-read/int64/addressed-element", r"C10\.slice-slice/b:e:c/shares-storage", r"C10\.slice-write/int64/append-at-len", r"C10\.map-write/unhashable-key-is-error", r"C10\.string-write/in-range", r"C10\.typed-slice/store-converts-as-go", r"C10\.struct/unknown-field-read-is-error", r"C10\.read-is-a-value/copy-keeps-the-value-read/swap/.*", r"C10\.read-is-a-value/copy-keeps-the-value-read/defer-argument/.*"],
     "bounds": {"slices": "len 0..3, cap len..len+1, symbolic int64 elements", "indices and bounds": "arbitrary int64 / float64 / int32 / bool and non-numeric classes (no bound on the value)",
                "maps": "0..3 entries over a key pool incl. nil and an unhashable key", "strings": "symbolic ASCII, length 0..3", "typed containers": "[]int64 with values of 6 classes; struct{A int64; B string; C []interface{}}",
-               "histories": "single operations (step lemma) plus slice-then-append through two aliased variables; read-then-overwrite: 14 receiving forms (variable, var, parameter, variadic parameter, list / map literal, defer / go argument, function result, result under a deferred store, return list, swap, rotation, two targets) x 8 containers ([]interface{}, []int64, two map types, struct value, struct pointer, slice of slices, slice of structs), symbolic payloads, from source text"},
+               "histories": "single operations (step lemma) plus slice-then-append through two aliased variables; read-then-overwrite: 18 receiving forms (variable, var, parameter, variadic parameter, list / map literal, defer / go argument, function result, result under a deferred store, return list, swap, rotation, two targets, left operand of an arithmetic / comparison operator, spread assignment and var) x 8 containers ([]interface{}, []int64, two map types, struct value, struct pointer, slice of slices, slice of structs), symbolic payloads, from source text"},
     "stubs": [],
     "assumptions": ["anko accepts numeral strings, booleans and fractional floats as indices; for those only 'in range after conversion => that element, else error' is asserted",
                     "reslicing into len < e <= cap is refused by anko (stricter than Go): that band is not compared"],
@@ -146,9 +146,9 @@ CHECKS["C08"] = {
 
 CHECKS["C09"] = {
     "corpus": True,
-    "runs": [R("./vm", {"fn": r"^ZZ_C09_try_defer_(d1|d2_lite|d1_text)$"}, {"fn": r"^ZZ_C09_try_defer_(d1|d2_b2|d1_text|d2_text_lite)$", "wall_timeout": 10000})],
-    "expect_asserts": [r"C09\.probe-trace", r"C09\.error-status"],
-    "bounds": {"quick": "as C08 plus try/catch/finally with outcomes normal/error in finally and functions with 0..2 deferred probe calls, one of which may fail",
+    "runs": [R("./vm", {"fn": r"^ZZ_C09_(try_defer_(d1|d2_lite|d1_text)|throw_values)$"}, {"fn": r"^ZZ_C09_(try_defer_(d1|d2_b2|d1_text|d2_text_lite)|throw_values)$", "wall_timeout": 10000})],
+    "expect_asserts": [r"C09\.probe-trace", r"C09\.error-status", r"C09\.throw/nothing-runs-after-the-throw/.*"],
+    "bounds": {"quick": "as C08 plus try/catch/finally with outcomes normal/error in finally and functions with 0..2 deferred probe calls, one of which may fail; `throw v` for 15 thrown values (empty and blank strings, nil, numbers, booleans, containers, an error with an empty message, computed empty strings) at top level, in a try, in a called function, in a loop",
                "thorough": "depth 2 with <= 2 compound statements"},
     "stubs": [], "assumptions": ["which of several deferred errors surfaces is not asserted (the statement leaves it open)"],
     "outside": ["defer inside a loop body registered more than twice", "depth 3"],
@@ -158,7 +158,7 @@ CHECKS["C20"] = {
     "corpus": True,
     "runs": [R("./vm", {"fn": r"^ZZ_C20_chain1$"}, {"fn": r"^ZZ_C20_chain[12]$", "wall_timeout": 7200})],
     "expect_asserts": [r"C20\.same-result/neg/int64/slice-element", r"C20\.same-error-or-success/deref/\*int64/struct-field", r"C20\.same-error-or-success/close/chan-open/go-call-interface", r"C20\.same-result/add-l/int64/variable"],
-    "bounds": {"templates": "51 operation templates (unary/binary operators in both operand positions, index, slice, len, in, call/spread/callee, member, deref, for-in, switch subject/case, conditions, make length, channel send/receive/close, delete, throw, assignment source/target, defer callee, literals, return)",
+    "bounds": {"templates": "60 operation templates (unary/binary operators in both operand positions, index, slice, len, in, call/spread/callee, member, deref, for-in, switch subject/case, conditions, make length, channel send/receive/close, delete, throw, assignment source/target, defer and go callee, literals, return, delete name and global flag, nil in switch subject and case, == / != nil, make(type), send channel)",
                "values": "38 classes of the value universe, symbolic payloads where a class has one", "provenance": "chains of length 1 (quick) / 2 (thorough) over 9 hops: variable, slice element, map entry, script call, Go call returning interface{}, parentheses, ?:, ??, struct field"},
     "stubs": [], "assumptions": ["functions, channels and pointers are distinct objects in the two runs: their dynamic type is compared, not their identity", "all NaNs are one value"],
     "outside": ["effects on the environment beyond the result", "assignment targets whose store must re-bind the target (strings, append at len)", "chains of length 3"],
